@@ -45,6 +45,7 @@ NODE = "cartgraph/node.py"
 G = "cartgraph/graph.py"
 I = "intertest_setup.py"
 MUTANTS = [
+    ("bridged-form-flat-composite-swapped", "cartgraph/node.py", "        if len(self.objects) == 0:\n            return self.setless_form\n        # TODO: the long suffix", "        if len(self.objects) != 0:\n            return self.setless_form\n        # TODO: the long suffix", "5nb"),
     ("unrolled-for-other-workers-child", "cartgraph/node.py", "                if worker and worker.id in node.id:\n                    return True", "                if worker and worker.id not in node.id:\n                    return True", "4lu"),
     ("unrolled-when-compatible", "cartgraph/node.py", "        elif worker and worker.net.long_suffix in self.incompatible_workers:\n            return True", "        elif worker and worker.net.long_suffix not in self.incompatible_workers:\n            return True", "4lu"),
     ("unrolled-no-worker-needs-incompat", "cartgraph/node.py", "                elif worker is None:\n                    return True\n        return False", "                elif worker is not None:\n                    return True\n        return False", "4lu"),
